@@ -18,7 +18,7 @@ func init() {
 			"C01.universe — NOT complements with a roaring Flip over [0, Index.rowCount) where that field is assigned only by the open function from the decoded row-counter item, and both writers persist their own row counter (one per AddRow call, so rows without columns are counted); " +
 			"C01.unknowncol — every lookup of a column in the schema during execution returns an error on the not-found branch (no silent empty result), and the equality test checks the column before consulting the cache; " +
 			"C01.nilbitmap — a bitmap obtained for a value that may not exist in the data (key computed from the query) is nil-guarded before any roaring operation; " +
-			"C01.opmap — AND evaluates every operand in order and intersects exactly those results, OR unites them, NOT flips its operand's result; " +
+			"C01.opmap — AND evaluates every operand in order and intersects exactly those results (the operand loop is left only through its header or with an error: no successful return or break-to-return before all operands were evaluated, which would lose an unknown-column error of a later operand), OR unites them, NOT flips its operand's result; " +
 			"C01.rowid / C01.persist / C01.txlife — as C18.rowid, C05.persist, C05.txlife. " +
 			"NOT decided: that cardinalities are numerically right (roaring's arithmetic, trusted); 64-bit hash collisions and NUL bytes in column names (excluded by the property); equivalence of on-demand and preloaded bitmaps beyond key/codec agreement.",
 		assumptions: []string{"roaring set operations and Flip are correct", "xxhash collisions assumed away (property)", "bbolt returns what was stored"},
@@ -28,7 +28,7 @@ func init() {
 		run: runC02,
 		explanation: "Decided (structural, for every dataset, expression and group-by list): " +
 			"C02.alias — in the evaluation code no append inside a loop uses a base slice that is the same in every iteration (sibling groups would share one backing array once the field list has spare capacity, i.e. from the 4th group-by column on); " +
-			"C02.sorted — the per-column value list built from the schema's map is sorted ascending by value before it is used; " +
+			"C02.sorted — the per-column value list built from the schema's map is sorted ascending by value before it is used (sort.Slice / slices.SortFunc with an ascending string comparison, or built by walking slices.Sorted over the map's keys) and not reversed afterwards; " +
 			"C02.unknowncol — an unknown group-by column yields an error (not a silently skipped column); " +
 			"C02.nonzero — a refined group is appended only on the branch where its bitmap's cardinality is known to be non-zero; " +
 			"C02.fresh — Execute keeps no resolved state in the Query (= C08.readonly), so a repeated execution does not duplicate columns; C02.inplace — no bitmap that is stored, preloaded, cached or an operand's result is modified in place while refining groups (= C03.pure); " +
@@ -71,13 +71,48 @@ func keyflowRule(c *Ctx, rule string) {
 	gvi := c.a.GetValueIndex
 	// schema.add: the value it returns / stores for a new pair is getValueIndex(k, v) of its own arguments
 	sa := c.a.SchemaAdd
+	// (arguments are compared after peel: a parameter captured by a closure is spilled into a cell and loaded again)
+	isOwnGvi := func(call *ssa.Call) bool {
+		return calleeFunc(&call.Call) == gvi && len(sa.Params) == 3 && len(call.Call.Args) == 2 &&
+			peel(call.Call.Args[0]) == ssa.Value(sa.Params[1]) && peel(call.Call.Args[1]) == ssa.Value(sa.Params[2])
+	}
+	// createsOwnGvi: the constructor handed to a get-or-create helper is a function literal of schema.add every return
+	// of which yields getValueIndex(k, v) of schema.add's own parameters (its free variables bound to them).
+	createsOwnGvi := func(create ssa.Value) bool {
+		f := funcOfValue(create)
+		if f == nil || f.Blocks == nil || f.Parent() != sa {
+			return false
+		}
+		n, good := 0, true
+		allInstrs(f, func(i ssa.Instruction) {
+			ret, ok := i.(*ssa.Return)
+			if !ok || isRecoverBlockReturn(ret) {
+				return
+			}
+			n++
+			if len(ret.Results) != 1 {
+				good = false
+				return
+			}
+			if cl, ok := retVals(ret)[0].(*ssa.Call); !ok || !isOwnGvi(cl) {
+				good = false
+			}
+		})
+		return n > 0 && good
+	}
+	// ownGoc: a call `getOrCreate(m, v, func() … { return getValueIndex(k, v) })` — the index stored in m under schema.add's
+	// value argument, or getValueIndex(k, v) entered under it if there was none.
+	ownGoc := func(i ssa.Instruction) bool {
+		_, key, create, ok := getOrCreateCall(c, i)
+		return ok && len(sa.Params) == 3 && peel(key) == ssa.Value(sa.Params[2]) && createsOwnGvi(create)
+	}
 	okAdd := false
 	allInstrs(sa, func(i ssa.Instruction) {
 		call, ok := i.(*ssa.Call)
-		if !ok || calleeFunc(&call.Call) != gvi {
+		if !ok {
 			return
 		}
-		if len(sa.Params) == 3 && call.Call.Args[0] == ssa.Value(sa.Params[1]) && call.Call.Args[1] == ssa.Value(sa.Params[2]) {
+		if isOwnGvi(call) || ownGoc(call) {
 			okAdd = true
 		}
 	})
@@ -100,9 +135,9 @@ func keyflowRule(c *Ctx, rule string) {
 				}
 				return true
 			case *ssa.Call:
-				return calleeFunc(&x.Call) == gvi
+				return calleeFunc(&x.Call) == gvi || ownGoc(x)
 			case *ssa.Extract:
-				if lk, ok := x.Tuple.(*ssa.Lookup); ok && x.Index == 0 && len(sa.Params) == 3 && lk.Index == ssa.Value(sa.Params[2]) {
+				if lk, ok := x.Tuple.(*ssa.Lookup); ok && x.Index == 0 && len(sa.Params) == 3 && peel(lk.Index) == ssa.Value(sa.Params[2]) {
 					return true
 				}
 			}
@@ -257,6 +292,30 @@ func universeRule(c *Ctx, rule string) {
 							}
 						}
 						return n > 0 && good
+					}
+				}
+				// a field of a local struct variable of the open function (a "header" read as a whole, possibly by a
+				// method of the struct that is called on it or handed to View as a method value): every store into that
+				// field, wherever the variable's address goes, is the decoded item. If the address goes somewhere that
+				// is not followed the provenance is not established.
+				if ld, ok := v.(*ssa.UnOp); ok && ld.Op == token.MUL && depth < 3 {
+					if fa, ok := ld.X.(*ssa.FieldAddr); ok {
+						if al, ok := peelCell(fa.X).(*ssa.Alloc); ok {
+							if stores, ok := structFieldStores(c, al, fa.Field); ok {
+								n, good := 0, true
+								for _, fs := range stores {
+									if k, isK := constInt(fs.Val); isK && k == 0 {
+										continue // zero initialisation
+									}
+									n++
+									if !okRowSrc(fs.Val, depth+1) {
+										good = false
+									}
+								}
+								return n > 0 && good
+							}
+							return false
+						}
 					}
 				}
 				// the result of a header-reading helper: every return that carries a nil error returns the decoded item
@@ -1003,6 +1062,25 @@ func elementLoopX(c *Ctx, fn *ssa.Function, v ssa.Value, isSrc func(ssa.Value) b
 	}
 	if p := c.fc.pathFrom(fn, ec, func(x ssa.Instruction) bool { return x == hdr }, func(x ssa.Instruction) bool { return x == ap }, cutErr); p != nil {
 		return false, "an operand can be evaluated without its result being combined (it is skipped on some path)"
+	}
+	// no way out of the loop other than through its header (all operands done) or with an error: once an operand has been
+	// evaluated, a return that reports success (or, in a function without an error result, any return) that is reached
+	// without passing the loop header again ends the evaluation early — directly, or by a break to a return behind the
+	// loop. The remaining operands are then never evaluated, so an error in one of them (an unknown column) is lost and
+	// the outcome depends on the data seen so far.
+	hasErr := false
+	if res := fn.Signature.Results(); res.Len() > 0 && isErrorType(res.At(res.Len()-1).Type()) {
+		hasErr = true
+	}
+	early := func(x ssa.Instruction) bool {
+		if hasErr {
+			return isSuccessReturn(x)
+		}
+		r, ok := x.(*ssa.Return)
+		return ok && !isRecoverBlockReturn(r)
+	}
+	if p := c.fc.pathFrom(fn, ec, early, func(x ssa.Instruction) bool { return x == hdr }, nil); p != nil {
+		return false, "the operand loop can be left with a successful return before every operand has been evaluated (" + c.w.ipos(p[len(p)-1]) + "): the remaining operands are not evaluated, so an error in one of them, e.g. an unknown column, is no longer reported"
 	}
 	return true, ""
 }
